@@ -4,6 +4,7 @@ import (
 	"encoding/json"
 	"fmt"
 	"os"
+	"runtime"
 	"testing"
 	"time"
 
@@ -50,6 +51,20 @@ func TestWorker(t *testing.T) {
 	}
 }
 
+// safeExec: a panic that reaches the worker goroutine comes from harness code
+// (library calls made outside the simulator are individually guarded): that is
+// an infrastructure problem, never a verdict.
+func safeExec(p Property, plan interface{}) (res Result) {
+	defer func() {
+		if r := recover(); r != nil {
+			buf := make([]byte, 8<<10)
+			n := runtime.Stack(buf, false)
+			res = Result{Infra: fmt.Sprintf("harness panic: %v\n%s", r, buf[:n])}
+		}
+	}()
+	return p.Exec(plan)
+}
+
 func isKnown(job *Job, class string) bool {
 	for _, k := range job.Known {
 		if k == class {
@@ -80,7 +95,7 @@ func explore(p Property, job *Job) {
 		}
 		os.WriteFile(job.Out+".current", []byte(fmt.Sprintf(`{"run":%d}`, run)), 0o644)
 		plan := p.Gen(job.Seed, run, job.Tier, job.Variant)
-		res := p.Exec(plan)
+		res := safeExec(p, plan)
 		if sum.FirstRun < 0 {
 			sum.FirstRun = run
 		}
